@@ -186,11 +186,128 @@ fn gen_layer(rng: &mut Rng, out: &mut dyn Write, n: usize) {
     }
 }
 
+
+/// a random forest of `n` body ids: abstract item / link tables with a random link permutation
+fn gen_pbd(rng: &mut Rng, out: &mut dyn Write, n_files: usize) {
+    for fi in 0..n_files {
+        let n = match rng.below(8) {
+            0 => 1,
+            1 => 2,
+            2 => rng.range(13, 30),
+            _ => rng.range(2, 12),
+        } as usize;
+        // parent item of every item (None = root); item 0 is always a root; acyclic by construction
+        let parent: Vec<Option<usize>> = (0..n)
+            .map(|i| if i == 0 || rng.chance(1, 5) { None } else { Some(rng.below(i as u64) as usize) })
+            .collect();
+        // item order in the file and link order are independent permutations
+        let mut item_pos: Vec<usize> = (0..n).collect();
+        let mut link_pos: Vec<usize> = (0..n).collect();
+        if rng.chance(2, 3) {
+            for i in (1..n).rev() {
+                item_pos.swap(i, rng.below(i as u64 + 1) as usize);
+                link_pos.swap(i, rng.below(i as u64 + 1) as usize);
+            }
+        }
+        let mut ids: Vec<u16> = Vec::new();
+        for _ in 0..n {
+            let id = if rng.chance(1, 12) && !ids.is_empty() {
+                *rng.pick(&ids) // duplicate body id: `find` takes the first
+            } else {
+                match rng.below(3) {
+                    0 => [101u16, 201, 301, 401, 501, 601, 701, 801, 901, 1001, 1101, 1201, 1301, 1401, 1501, 1601, 1701, 1801][rng.below(18) as usize],
+                    1 => rng.below(16) as u16,
+                    _ => rng.next() as u16,
+                }
+            };
+            ids.push(id);
+        }
+        // children lists for sibling links
+        let mut items = vec![String::new(); n];
+        let mut links = vec![String::new(); n];
+        for i in 0..n {
+            let sibs: Vec<usize> = (0..n).filter(|j| parent[*j] == parent[i]).collect();
+            let me = sibs.iter().position(|j| *j == i).unwrap();
+            let next_sib: u16 = match rng.below(10) {
+                0 => 0xFFFF,
+                1 => rng.below(n as u64) as u16,
+                _ => {
+                    if me + 1 < sibs.len() {
+                        link_pos[sibs[me + 1]] as u16
+                    } else if rng.chance(5, 6) {
+                        link_pos[sibs[0]] as u16 // ring
+                    } else {
+                        0xFFFF
+                    }
+                }
+            };
+            let first_child = (0..n).find(|j| parent[*j] == Some(i)).map(|j| link_pos[j] as u16).unwrap_or(0xFFFF);
+            let par = parent[i].map(|p| link_pos[p] as u16).unwrap_or(0xFFFF);
+            links[link_pos[i]] = format!("{}:{}:{}:{}", par, first_child, next_sib, item_pos[i]);
+            let nb = match rng.below(6) {
+                0 => 0,
+                1 => 1,
+                _ => rng.range(1, 5),
+            } as usize;
+            let bones: Vec<String> = (0..nb)
+                .map(|_| {
+                    let len = rng.range(1, 14) as usize;
+                    let name: Vec<u8> = (0..len)
+                        .map(|_| match rng.below(8) {
+                            0 => rng.range(1, 127) as u8,
+                            1 => b'_',
+                            _ => rng.range(b'a' as u64, b'z' as u64) as u8,
+                        })
+                        .collect();
+                    let m: Vec<u32> = (0..12).map(|_| f32_edge(rng)).collect();
+                    format!("{}/{}", hex(&name), join(&m, ","))
+                })
+                .collect();
+            items[item_pos[i]] = format!("{}:{}:{}", ids[i], link_pos[i], join(&bones, "+"));
+        }
+        let it = items.join(";");
+        let lk = links.join(";");
+        // queries: every ordered pair for small forests, otherwise a sample; plus absent ids
+        let mut qs: Vec<(u16, u16)> = Vec::new();
+        if n <= 5 {
+            for a in 0..n {
+                for b in 0..n {
+                    qs.push((ids[a], ids[b]));
+                }
+            }
+        } else {
+            for _ in 0..8 {
+                let a = rng.below(n as u64) as usize;
+                // bias `to` towards an ancestor of `from`
+                let mut b = rng.below(n as u64) as usize;
+                if rng.chance(1, 2) {
+                    let mut cur = a;
+                    let hops = rng.below(4);
+                    for _ in 0..=hops {
+                        if let Some(p) = parent[cur] {
+                            cur = p;
+                        }
+                    }
+                    b = cur;
+                }
+                qs.push((ids[a], ids[b]));
+            }
+        }
+        qs.push((ids[rng.below(n as u64) as usize], 9999));
+        qs.push((9999, ids[0]));
+        let _ = fi;
+        for (a, b) in qs {
+            writeln!(out, "pbd {} {} {} {}", it, lk, a, b).unwrap();
+        }
+    }
+}
+
 pub fn generate(thorough: bool, seed: u64, out: &mut dyn Write) {
     let mut rng = Rng::new(seed, "C16");
     gen_cmp(&mut rng, out, if thorough { 1500 } else { 40 });
     gen_tera(&mut rng, out, thorough);
     gen_layer(&mut rng, out, if thorough { 20_000 } else { 900 });
+    gen_pbd(&mut rng, out, if thorough { 3000 } else { 120 });
 }
 
 // ------------------------------------------------------------------------------------------
@@ -342,6 +459,30 @@ pub fn run(case: &str, input: &str) -> String {
                 match physis::layer::LayerGroup::from_existing(&b) {
                     None => "none".into(),
                     Some(g) => show_group(&g),
+                }
+            })
+        }
+        ("pbd", 4) => {
+            let Some(bytes) = unhex(f[1]) else { return "bad-case".into() };
+            let (Ok(a), Ok(b)) = (f[2].parse::<u16>(), f[3].parse::<u16>()) else { return "bad-case".into() };
+            guarded(move || {
+                let Some(pbd) = physis::pbd::PreBoneDeformer::from_existing(&bytes) else { return "file-none".into() };
+                match pbd.get_deform_matrices(a, b) {
+                    None => "none".into(),
+                    Some(m) => {
+                        let v: Vec<String> = m
+                            .bones
+                            .iter()
+                            .map(|x| {
+                                format!(
+                                    "{}/{}",
+                                    hex(x.name.as_bytes()),
+                                    join(&x.deform.iter().map(|w| w.to_bits()).collect::<Vec<_>>(), ",")
+                                )
+                            })
+                            .collect();
+                        format!("some {}", join(&v, "+"))
+                    }
                 }
             })
         }
